@@ -1,7 +1,7 @@
 """C07 - array length limits are enforced at every nesting level."""
 import itertools
 
-from vlib.valuecheck import build_cases, evaluate, replay  # noqa: F401
+from vlib.valuecheck import build_cases, evaluate, replay, collide_root  # noqa: F401
 from vlib.kitchen import run_cases
 
 PROPS_FILE = "Props/C07.v"
@@ -33,6 +33,11 @@ def systematic():
         else:
             root = {"type": "object", "properties": {"l": {"type": "array", "items": {"type": "object", "properties": {"a": s}, "required": ["a"]}}}}
         out.append(root)
+    # inline types whose Go names collide and that differ only in their limits
+    arr = lambda mn, mx, it="string": dict({"type": "array", "items": {"type": it}}, **({"minItems": mn} if mn else {}), **({"maxItems": mx} if mx else {}))   # noqa: E731
+    for (a, b) in (((2, 3), (4, 6)), ((0, 2), (0, 4)), ((1, 0), (3, 0)), ((0, 0), (2, 2))):
+        out.append(collide_root(arr(*a), arr(*b), key="tags"))
+        out.append(collide_root(arr(*b), arr(*a), key="tags", required=True))
     return out
 
 
@@ -43,7 +48,7 @@ def run(ctx):
     ctx.proof_step(PROPS_FILE)
     sysm = systematic()
     if ctx.tier == "quick":
-        sysm = sysm[::2]
+        sysm = sysm[::2] + sysm[-8:]
     n = 20 if ctx.tier == "quick" else 300
     cases = build_cases(ctx, len(sysm) + n, ["array"], CLASSES | {"type"}, "c07x", extra_schemas=sysm, docs_per=2 if ctx.tier == "quick" else 4)
     run_cases(ctx, cases, "c07")
